@@ -270,8 +270,11 @@ fn main() {
         gens.push(Gen::new("failed_publish", nf, move |ctx, i| {
             let mut rng = Rng::keyed(ctx.seed, "C11f", 0, i as u64);
             let mut cr = CaseResult::default();
-            let kind = i % 3;
+            let kind = i % 4;
             let oti = match kind {
+                // Raptor, small symbols and source blocks of at most 4-6 symbols: an instance whose partition has a block
+                // of 2-3 symbols (large AND small blocks are looked at) is refused, the others are sent in full
+                3 => { let mut o = OtiSpec::new(Fec::Raptor, *rng.pick(&[32u16, 64]), *rng.pick(&[4u32, 5, 6]), 1); o.al = 4; o }
                 // Raptor, large symbols: an FDT of 2-3 symbols is refused, 1 or >= 4 symbols are fine
                 0 => { let mut o = OtiSpec::new(Fec::Raptor, *rng.pick(&[700u16, 1000, 1400]), 64, 1); o.al = 4; o }
                 // tiny maximum transfer length: FDT instances above B*E*... bytes cannot be sent
@@ -282,14 +285,16 @@ fn main() {
             spec.full_fdt = rng.chance(2, 3);
             spec.fdt_carousel = CarouselSpec::DelayMs(*rng.pick(&[0u64, 100, 5000]));
             spec.fdt_duration_s = 3600;
-            let nobj = rng.range(2, 14) as usize;
+            let nobj = if kind == 3 { rng.range(1, 4) as usize } else { rng.range(2, 14) as usize };
             let obj_oti = OtiSpec::new(Fec::NoCode, 64, 8, 0);
             let mut objs = vec![];
             let mut script: Vec<(When, Op)> = vec![];
             let mut pk = 0usize;
             for k in 0..nobj {
                 let olen = rng.range(1, 300) as usize;
-                let mut o = ObjSpec::new(gen_bytes(&mut rng, olen), &format!("file:///failed-publish/a-rather-long-location-to-make-the-fdt-grow/{}", k));
+                // (kind 3: the length of the location sweeps the number of symbols of the instance)
+                let pad = if kind == 3 { "p".repeat((i / 4) % 131) } else { String::new() };
+                let mut o = ObjSpec::new(gen_bytes(&mut rng, olen), &format!("file:///failed-publish/a-rather-long-location-to-make-the-fdt-grow/{}{}", pad, k));
                 o.oti = Some(obj_oti.clone());
                 objs.push(o);
                 script.push((if k == 0 { When::Start } else { When::Packets(pk) }, Op::Add(k)));
